@@ -28,7 +28,8 @@ def handler(case):
     T = F(case["spec"]["ctrl"]["T"]); dt = F(case["dt"])
     info = ctl.last_iteration(info)          # two-iteration scenarios: the second one has to come back to normal
     steps = [r for r in info if r["phase"] == "step"]
-    last_failed = max([r["k"] for r in steps if r["failed"] or r.get("ict_failed")] + [0])
+    # "every failed component has been repaired": lines, communication lines / nodes, and the devices of the control system
+    last_failed = max([r["k"] for r in steps if r["failed"] or r.get("ict_failed") or r.get("dev_bad")] + [0])
     bound = math.ceil(T / dt) + 3
     normal_from = None
     for r in steps:
@@ -37,7 +38,9 @@ def handler(case):
         elif r["k"] > last_failed and normal_from is None:
             normal_from = r["k"]
     end = steps[-1]
-    if end["normal"]:
+    if end["normal"] and end["k"] - last_failed < bound:
+        case["_late"] = True          # the last repair (e.g. a sensor back from its manual repair) came too late in the run to judge the return
+    elif end["normal"]:
         viols.append(("c06.not-normal", f"after the last repair (increment {last_failed}) and {end['k'] - last_failed} quiet increments: {end['normal'][:3]}"))
     elif normal_from is not None and last_failed and normal_from - last_failed > bound:
         viols.append(("c06.late", f"normal configuration reached {normal_from - last_failed} increments after the last repair, bound {bound}"))
@@ -67,7 +70,7 @@ def compare(case, m, i):
         return True
     # the model ends in the normal configuration, and the hypotheses of C06.returns_to_normal (wfB, wfB2 of the
     # configuration extracted from the real system; invJ of every state) hold as evaluated by the model driver
-    return ([ctl.strip_ok(x) for x in m] == i and ctl.model_flags(m[-1])[2] == "1"
+    return ([ctl.strip_ok(x) for x in m] == i and (ctl.model_flags(m[-1])[2] == "1" or case.get("_late"))
             and all(ctl.model_flags(x)[3:6] == "111" for x in m))
 
 
